@@ -224,12 +224,23 @@ def gen_search_case(rng, i, thorough):
     """homogeneous / heterogeneous histories with moderate epsilon; both parities; many small groups
     (amplifies a per-group index error beyond eps_error)"""
     for _ in range(200):
-        style = ["homog", "hetero", "many-groups", "gauss", "homog-odd-even"][i % 5]
+        style = ["homog", "hetero", "many-groups", "gauss", "homog-odd-even", "recurring", "gauss-many"][i % 7]
         ee = 10 ** rng.uniform(-3, -1) if thorough else 10 ** rng.uniform(-2, -1)
         delta = 10 ** rng.uniform(-9, -3)
         if style == "gauss":
             k = rng.randint(1, 4)
             hist = [(round(rng.uniform(3.0, 30.0), 3), 1.0, rng.randint(1, 40)) for _ in range(k)]
+        elif style == "recurring":
+            # A, B, A(, B, A): the same (sigma, q) in non-adjacent runs – every run must be composed
+            a = (round(rng.uniform(0.8, 2.0), 3), rng.choice([0.01, 0.02, 0.05]))
+            b = (round(rng.uniform(0.8, 2.0), 3), rng.choice([0.01, 0.02, 0.05]))
+            hist = [(x[0], x[1], rng.randint(5, 60)) for x in ([a, b, a, b, a][: rng.choice([3, 3, 4, 5])])]
+        elif style == "gauss-many":
+            # many comparable segments (a noise schedule changing sigma every epoch): the composed epsilon is
+            # well above any single segment's; exact Gaussian truth at q = 1
+            k = rng.randint(12, 20)
+            s0 = rng.uniform(3.5, 6.0)
+            hist = [(round(s0 * rng.uniform(0.95, 1.05), 4), 1.0, rng.randint(1, 3)) for _ in range(k)]
         elif style == "many-groups":
             k = rng.randint(6, 14 if thorough else 10)
             hist = [(round(rng.uniform(0.8, 3.0), 4), rng.choice([0.01, 0.02, 0.05, 0.1, 0.003]), rng.randint(1, 3)) for _ in range(k)]
